@@ -11,13 +11,17 @@
 //!   b=<hex>;<hex>;…    battery strings for the regex-equivalence oracle
 //!   in=<hex>;<hex>;…   inputs to lex with the built definition (and with the reference lexer)
 //!   lim=1              also report the numeric flags of the %grmtools section (LIM section)
-//!   flags = comma list of `<name>:<0|1>` with names dnl ml oct pe awc ci sg iw uni, or `-`
+//!   nl=<n|d>           (with w=) also report, per written regex, whether the regex crate ON ITS OWN builds it under f= with
+//!                      nest_limit n (d = the crate's default): NL section — the reference for "the limit in force is the one written"
+//!   flags = comma list of `<name>:<0|1>` with names dnl ml oct pe awc ci sg iw uni (and `nest:<n>` = nest_limit), or `-`
 //!
 //! result line: sections joined by ` | `
 //!   HDR <pos> <flags>            what the public header parser + `LexFlags::try_from` say (`HDR E` on error,
 //!                                `HDR <pos> E` on a conversion error, `HDR P` on a panic)
 //!   LIM nest:<v|-> size:<v|-> dfa:<v|->    (with lim=1) the numeric flags `LexFlags::try_from` yields for the parsed section, or
 //!   LIM E <kind> { <s> <e> }*                the conversion error with its locations
+//!   NL { <k>:<0|1>:<0|1>:<0|1> }*           (with nl=) regex crate alone: does RegexBuilder::new(w[k]) + flags f= build with
+//!                                           nest_limit n : with n-1 : with n-2 (0 when negative; d = the default, then 249, 248)
 //!   OK <nrules> <nstates> { ; r <namehex|-> <s> <e> x<re_str hex> <id,id..|-> <-|id:op> }* { ; s <id> x<namehex> <0|1> <s> <e> }*
 //!   ERRS <n> { ; X <kind> <nspans> {<s> <e>}* }*
 //!   PANIC <msg>
@@ -66,6 +70,11 @@ fn parse_flags(s: &str) -> LexFlags {
     }
     for kv in s.split(',') {
         let (k, v) = kv.split_once(':').expect("flag k:v");
+        if k == "nest" {
+            // the numeric flag nest_limit (the others are booleans)
+            f.nest_limit = Some(v.parse().expect("nest:<u32>"));
+            continue;
+        }
         let v = Some(v == "1");
         match k {
             "dnl" => f.dot_matches_new_line = v,
@@ -111,7 +120,15 @@ fn show_flags(f: &LexFlags) -> String {
 
 /// `re` compiled under flags `f`, exactly as given (`anchored` = spliced into `\A(?:..)`).
 fn build(re: &str, f: &LexFlags, anchored: bool) -> Result<Regex, regex::Error> {
+    build_nl(re, f, anchored, None)
+}
+
+/// ... with the nest limit `nl` (None = the regex crate's default) applied to exactly the text that is compiled.
+fn build_nl(re: &str, f: &LexFlags, anchored: bool, nl: Option<u32>) -> Result<Regex, regex::Error> {
     let mut b = if anchored { RegexBuilder::new(&format!("\\A(?:{})", re)) } else { RegexBuilder::new(re) };
+    if let Some(n) = nl {
+        b.nest_limit(n);
+    }
     b.octal(f.octal.unwrap_or(true))
         .multi_line(f.multi_line.unwrap_or(true))
         .dot_matches_new_line(f.dot_matches_new_line.unwrap_or(true));
@@ -170,6 +187,7 @@ fn run(line: &str) -> String {
     let mut force = UNSPECIFIED_LEX_FLAGS;
     let (mut w, mut wn, mut bat, mut inputs) = (vec![], vec![], vec![], vec![]);
     let mut lim = false;
+    let mut nl: Option<Option<u32>> = None;
     for tok in line.split_whitespace() {
         let (k, v) = match tok.split_once('=') {
             Some(x) => x,
@@ -184,6 +202,7 @@ fn run(line: &str) -> String {
             "b" => bat = list(v).iter().map(|x| uh(x)).collect(),
             "in" => inputs = list(v).iter().map(|x| uh(x)).collect(),
             "lim" => lim = v == "1",
+            "nl" => nl = Some(if v == "d" { None } else { Some(v.parse().expect("nl=<u32>|d")) }),
             _ => return "BADCASE".to_string(),
         }
     }
@@ -222,6 +241,17 @@ fn run(line: &str) -> String {
             }
             Ok(Err(_)) => o.push_str(" | LIM HE"),
             Err(_) => o.push_str(" | LIM P"),
+        }
+    }
+    if let Some(n) = nl {
+        o.push_str(" | NL");
+        for (k, x) in w.iter().enumerate() {
+            if x != "-" {
+                // under the limit given, under one less and under two less (how large a gap is)
+                let v = n.unwrap_or(250);
+                let less = |d: u32| v >= d && build_nl(&uh(x), &force, false, Some(v - d)).is_ok();
+                write!(o, " {}:{}:{}:{}", k, build_nl(&uh(x), &force, false, n).is_ok() as u8, less(1) as u8, less(2) as u8).unwrap();
+            }
         }
     }
     // --- the definition
